@@ -187,6 +187,25 @@ class Unit:
             short = [f for f in c if f["path"].count("::") == m]
             if len(short) == 1:
                 c = short
+        if not c:
+            # the item may have moved to another module of the crate (a new private submodule, an impl block in a sibling file): same function name, same
+            # owning type (as a path segment or as the self type of an `<impl ..>` segment), and still below the first module the anchor names
+            segs = [x for x in re.split(r"::(?![^<]*>)", suffix_n) if x]
+            if segs and segs[0] == self.crate:
+                segs = segs[1:]
+            if len(segs) >= 2:
+                name_, owner_, head_ = segs[-1], re.sub(r"<.*$", "", segs[-2]), segs[0]
+                cc = []
+                for p_, f in self.norm.items():
+                    if f.get("dk") == "Closure" or not p_.endswith("::" + name_):
+                        continue
+                    ps = [x for x in re.split(r"::(?![^<]*>)", p_) if x]
+                    own = ps[-2] if len(ps) >= 2 else ""
+                    own_ok = re.sub(r"<.*$", "", own) == owner_ or (own.startswith("<impl ") and re.search(r"(^|[:\s<])%s\b" % re.escape(owner_), own) is not None)
+                    if own_ok and (head_ == owner_ or head_ in ps or len(segs) == 2):
+                        cc.append(f)
+                if len(cc) == 1:
+                    c = cc
         if len(c) == 1:
             return c[0]
         if not c:
@@ -966,6 +985,79 @@ def read_repo(rel, repo=REPO):
 # --------------------------------------------------------------------------- symbolic MIR values
 
 
+def _mir_remap(node, loff, bmap):
+    """deep copy of a MIR JSON fragment with locals shifted by loff and block ids mapped through bmap"""
+    if isinstance(node, list):
+        return [_mir_remap(x, loff, bmap) for x in node]
+    if not isinstance(node, dict):
+        return node
+    out = {}
+    for k, v in node.items():
+        if k == "l" and isinstance(v, int):
+            out[k] = v + loff
+        elif k in ("t", "otherwise", "unwind") and isinstance(v, int):
+            out[k] = bmap.get(v, v)
+        elif k == "targets" and isinstance(v, list):
+            out[k] = [[x[0], bmap.get(x[1], x[1])] for x in v]
+        elif k == "id" and isinstance(v, int) and "stmts" in node:
+            out[k] = bmap.get(v, v)
+        else:
+            out[k] = _mir_remap(v, loff, bmap)
+    return out
+
+
+def inline_mir(unit, fn, depth=2, max_blocks=60):
+    """fn with the bodies of the same-crate functions it calls spliced into its MIR (`depth` levels, small non-recursive callees with full MIR only):
+    callee locals are renumbered behind the caller's, parameters become assignments from the call's operands, `return` becomes an assignment of the
+    callee's return slot to the call's destination followed by a jump to the call's target.  Path / dominance / symbolic rules written for one function
+    then see the same operations after a private helper was extracted from it.  -> a new fn dict (the facts are not modified); `_inlined` lists the callees."""
+    mir = fn.get("mir") or {}
+    if "blocks" not in mir:
+        return fn
+    new = json.loads(json.dumps(mir))
+    blocks = new["blocks"]
+    level = {b["id"]: 0 for b in blocks}
+    inlined = []
+    active = {b["id"]: (fn["path"],) for b in blocks}      # call stack that produced each block (recursion guard)
+    progress = True
+    while progress and len(blocks) < 600:
+        progress = False
+        for b in list(blocks):
+            t = b["term"]
+            if t["k"] != "call" or b.get("cleanup") or level.get(b["id"], 0) >= depth:
+                continue
+            cal = mir_callee(t)
+            g = (unit.fns.get(cal) or unit.norm.get(norm_path(cal))) if cal else None
+            if not g or g is fn or not g.get("mir") or "blocks" not in g["mir"] or len(g["mir"]["blocks"]) > max_blocks or g["path"] in active.get(b["id"], ()):
+                continue
+            gm = g["mir"]
+            loff = len(new["locals"])
+            boff = max(x["id"] for x in blocks) + 1
+            bmap = {x["id"]: x["id"] + boff for x in gm["blocks"]}
+            for l_ in gm["locals"]:
+                new["locals"].append({"l": l_["l"] + loff, "ty": l_["ty"]})
+            for n_ in gm.get("names", []):
+                new["names"].append({"n": n_["n"], "p": _mir_remap(n_["p"], loff, {})})
+            entry_stmts = [{"k": "assign", "lhs": {"l": loff + i + 1}, "rv": {"k": "use", "op": a}, "ln": t.get("ln")} for i, a in enumerate(t["args"])]
+            for gb in gm["blocks"]:
+                nb = _mir_remap(gb, loff, bmap)
+                if gb["id"] == 0:
+                    nb["stmts"] = entry_stmts + nb["stmts"]
+                if nb["term"]["k"] == "return":
+                    nb["stmts"] = nb["stmts"] + [{"k": "assign", "lhs": t["dest"], "rv": {"k": "use", "op": {"move": {"l": loff}}}, "ln": t.get("ln")}]
+                    nb["term"] = {"k": "goto", "t": t["t"]} if t.get("t") is not None else {"k": "unreachable"}
+                blocks.append(nb)
+                level[nb["id"]] = level.get(b["id"], 0) + 1
+                active[nb["id"]] = active.get(b["id"], ()) + (g["path"],)
+            b["term"] = {"k": "goto", "t": bmap[0]}
+            inlined.append(g["path"])
+            progress = True
+    out = dict(fn)
+    out["mir"] = new
+    out["_inlined"] = inlined
+    return out
+
+
 class MirFn:
     """One MIR body with def-use helpers and a small symbolic evaluator (no execution: pure term rewriting
     of single-assignment temporaries into expression trees over parameters, places and calls)."""
@@ -1089,6 +1181,131 @@ class MirFn:
                 stack.append((s_, path + [s_]))
         return out
 
+    BUILTIN_VARIANTS = {"None": 0, "Some": 1, "Ok": 0, "Err": 1, "Continue": 0, "Break": 1}
+
+    def _const_of(self, rv, known, adts):
+        """constant a definition gives its local, when it is one: bool / integer / enum variant index (by aggregate or by constant operand), copies of known locals,
+        `discriminant(x)` of a local with a known variant"""
+        k = rv["k"]
+        if k == "agg" and rv.get("variant") is not None and rv.get("adt"):
+            a = (adts or {}).get(rv["adt"])
+            if a and a.get("kind") == "enum":
+                names = [v["name"] for v in a["variants"]]
+                return names.index(rv["variant"]) if rv["variant"] in names else None
+            return self.BUILTIN_VARIANTS.get(rv["variant"]) if rv["adt"].startswith("core::") else None
+        if k == "use":
+            op = rv["op"]
+            if "c" in op:
+                c = str(op["c"])
+                if c in ("true", "false"):
+                    return int(c == "true")
+                m_ = re.match(r"^(-?\d+)_[iu](\d+|size)$", c)
+                if m_:
+                    return int(m_.group(1))
+                if adts and "::" in c:
+                    en, _, vn = c.rpartition("::")
+                    for p_, a in adts.items():
+                        if a.get("kind") == "enum" and (p_ == en or p_.endswith("::" + en)):
+                            names = [v["name"] for v in a["variants"]]
+                            if vn in names:
+                                return names.index(vn)
+                return None
+            pl = op.get("copy") or op.get("move")
+            if pl and not pl.get("p"):
+                return known.get(pl["l"])
+        if k == "discr" and not rv["place"].get("p"):
+            return known.get(rv["place"]["l"])
+        return None
+
+    def feasible(self, path, adts=None):
+        """False when the path contradicts itself: it passes a block that gives a local a known constant (bool, integer, enum variant) and later takes an edge of a
+        switch on that local (or on its discriminant) that the constant does not select.  Removes the infeasible paths a flag / status enum introduces."""
+        known = {}
+        for i, b in enumerate(path):
+            blk = self.cfg.blocks[b]
+            for s_ in blk["stmts"]:
+                if s_["k"] == "assign" and not s_["lhs"].get("p"):
+                    v = self._const_of(s_["rv"], known, adts)
+                    if v is None:
+                        known.pop(s_["lhs"]["l"], None)
+                    else:
+                        known[s_["lhs"]["l"]] = v
+            t = blk["term"]
+            if t["k"] == "call" and not t["dest"].get("p"):
+                known.pop(t["dest"]["l"], None)
+            if t["k"] == "switch" and i + 1 < len(path):
+                pl = t["discr"].get("copy") or t["discr"].get("move")
+                if pl and not pl.get("p") and pl["l"] in known:
+                    val = known[pl["l"]]
+                    ev = self.edge_value(b, path[i + 1])
+                    listed = [v for v, _ in t["targets"]]
+                    if (ev == "otherwise" and val in listed) or (ev not in (None, "otherwise") and val not in ev):
+                        return False
+        return True
+
+    def phi_alts(self, term):
+        """[(def block, value term)] for a term that is a merge of several definitions: a phi local, or component `.N` of a phi local whose definitions are tuple
+        aggregates (`let (p, n) = if c { (a, b) } else { (d, e) }`, also after inlining a helper that returns a tuple).  None if the term is not such a merge."""
+        t = sym_strip(term)
+        comp = None
+        if isinstance(t, tuple) and t[0] == "proj" and isinstance(t[1], tuple) and t[1][0] == "phi" and re.fullmatch(r"\.\d+", str(t[2])):
+            comp = int(t[2][1:])
+            t = t[1]
+        if not (isinstance(t, tuple) and t[0] == "phi"):
+            return None
+        out = []
+        for dbb, kind, node in self.defs.get(t[1], []):
+            if kind == "call":
+                v = ("call", mir_callee(node) or "indirect", tuple(self.sym_op(z) for z in node["args"]), tuple(node["f"].get("ga") or ()))
+            else:
+                v = self.sym_rv(node["rv"])
+            if comp is not None:
+                vs = sym_strip(v)
+                if isinstance(vs, tuple) and vs[0] == "agg" and len(vs[5]) > comp:
+                    v = vs[5][comp]
+                else:
+                    return None
+            out.append((dbb, v))
+        return out
+
+    def sym_alts(self, term, limit=8, depth=3):
+        """the terms `term` can stand for when its merges (phi_alts) are replaced by each of their definitions (bounded)"""
+        if depth <= 0:
+            return [term]
+        if not isinstance(term, tuple) or not term:
+            return [term]
+        pa = self.phi_alts(term) if isinstance(term[0], str) else None
+        if pa is not None:
+            out = []
+            for _, v in pa:
+                out += self.sym_alts(v, limit, depth - 1)
+            return out[:limit] or [term]
+        if term and isinstance(term[0], str):
+            heads = [[]]
+            for x in term:
+                subs = self.sym_alts(x, limit, depth) if isinstance(x, tuple) else [x]
+                heads = [h + [s_] for h in heads for s_ in subs][:limit]
+            return [tuple(h) for h in heads]
+        # a plain tuple of terms (argument lists)
+        heads = [[]]
+        for x in term:
+            subs = self.sym_alts(x, limit, depth) if isinstance(x, tuple) else [x]
+            heads = [h + [s_] for h in heads for s_ in subs][:limit]
+        return [tuple(h) for h in heads]
+
+    def feasible_reach(self, start, adts=None, limit=3000):
+        """blocks that lie on some feasible path from `start` to a block without successors (return, diverging call): reachability that respects the constants
+        the path itself establishes (a status enum set on a failure edge and matched on afterwards)"""
+        ends = [i for i, b in self.cfg.blocks.items() if not b.get("cleanup") and not self.cfg.succ.get(i)]
+        out = set()
+        n = 0
+        for e in ends:
+            for p_ in self.paths(start, e, limit):
+                n += 1
+                if self.feasible(p_, adts):
+                    out.update(p_)
+        return out if n else self.cfg.reachable_from(start)
+
     def edge_value(self, a, b):
         """For a switch in block a: the discriminant value(s) that lead to b ('otherwise' if default)."""
         t = self.cfg.blocks[a]["term"]
@@ -1134,7 +1351,7 @@ def sym_expand(unit, s_, depth=2):
         return s_
     if s_ and s_[0] == "call" and isinstance(s_[1], str):
         args = tuple(sym_expand(unit, a, depth) for a in s_[2])
-        g = unit.fns.get(s_[1])
+        g = unit.fns.get(s_[1]) or unit.norm.get(norm_path(s_[1]))
         if g and g.get("mir") and "blocks" in g["mir"] and depth > 0:
             mg = MirFn(g)
             if len(mg.defs.get(0, [])) == 1:
@@ -1157,7 +1374,7 @@ def ctor_aggs(unit, f, adt_suffix, depth=2):
     if out or depth <= 0:
         return out
     for bb, t in mf.calls():
-        g = unit.fns.get(mir_callee(t) or "")
+        g = unit.fns.get(mir_callee(t) or "") or unit.norm.get(norm_path(mir_callee(t) or ""))
         if not g or not g.get("mir") or "blocks" not in g["mir"] or g is f:
             continue
         argmap = {i + 1: mf.sym_op(a) for i, a in enumerate(t["args"])}
